@@ -27,8 +27,8 @@
        profile weight `late_shadow` re-enables it);
      - consecutive nested functions are mutually visible in Never; the evaluator only sees the
        earlier ones, so a later sibling never gets a name the earlier ones use freely;
-     - divisors are never -1 (INT_MIN / -1 traps in the VM: known C05/C11 finding) and never a
-       compile-time constant 0; shift counts are 0..31. *)
+     - divisors are never a compile-time constant 0 (rejected by the compiler); INT_MIN / -1 is
+       generated (wraps since 7c75cd1); shift counts are 0..31. *)
 open Evalmodel
 open Conv
 module IS = Uniq.IS
@@ -102,7 +102,7 @@ let defaults = [
   (* idioms: percent chance each per main *)
   "id_counter", 0; "id_adder", 0; "id_loopcap", 0; "id_reccap", 0; "id_compose", 0;
   "id_alias", 0; "id_catch", 0; "id_shadow", 0; "id_order", 0; "id_tail", 0; "id_agg", 0; "id_mutual", 0;
-  "id_pipe", 0; "pp_pipe", 0;
+  "id_pipe", 0; "pp_pipe", 0; "id_shadow2", 0;
   "id_repeat", 1;
 ]
 
@@ -118,7 +118,7 @@ let profiles = [
   "closure", ["id_counter", 70; "id_adder", 50; "id_loopcap", 40; "id_reccap", 50; "id_compose", 40;
               "it_func", 22; "t_fun", 25; "i_fcall", 18; "i_applam", 6; "rf_fun", 30; "nfuncs_max", 4;
               "depth", 3; "dump", 70];
-  "shadow", ["shadow", 65; "id_shadow", 80; "it_func", 16; "it_let", 30; "it_var", 30; "i_block", 10;
+  "shadow", ["shadow", 65; "id_shadow", 80; "id_shadow2", 60; "it_func", 16; "it_let", 30; "it_var", 30; "i_block", 10;
              "i_applam", 6; "t_fun", 14; "dump", 80; "block_items", 3; "i_fcall", 10; "catch", 15];
   "loops", ["it_loop", 30; "i_loop", 4; "id_loopcap", 20; "main_items", 6; "dump", 80; "fault", 4;
             "t_arr", 16; "i_index", 14];
@@ -128,12 +128,12 @@ let profiles = [
              "rf_arr", 25];
   "catch", ["id_catch", 100; "id_repeat", 3; "catch", 60; "fault", 22; "nilp", 12; "nfuncs_min", 2; "nfuncs_max", 4;
             "i_call", 22; "it_call", 14; "it_loop", 10; "t_rec", 14; "t_arr", 14; "it_func", 10];
-  "tailrec", ["id_tail", 100; "f_tail", 0; "f_rec", 30; "id_mutual", 40; "budget_main", 7000; "tail_lo", 150; "tail_hi", 450;
+  "tailrec", ["id_tail", 100; "f_tail", 0; "f_rec", 30; "id_mutual", 40; "budget_main", 7000; "tail_lo", 150; "tail_hi", 400;
               "nfuncs_max", 2; "main_items", 3; "depth", 2];
   "pipe", ["pp_pipe", 65; "id_pipe", 100; "id_repeat", 2; "i_call", 25; "i_fcall", 10; "it_call", 14; "it_func", 14; "t_fun", 14;
            "id_tail", 25; "id_order", 40; "f_rec", 25; "tail_lo", 30; "tail_hi", 120; "nfuncs_min", 2; "nfuncs_max", 4];
   "mix", ["pp_pipe", 8; "id_pipe", 10; "id_counter", 15; "id_adder", 10; "id_loopcap", 10; "id_reccap", 10; "id_compose", 10; "id_alias", 25;
-          "id_catch", 25; "id_shadow", 15; "id_order", 20; "id_agg", 20; "shadow", 15; "catch", 20; "fault", 8;
+          "id_catch", 25; "id_shadow", 15; "id_shadow2", 10; "id_order", 20; "id_agg", 20; "shadow", 15; "catch", 20; "fault", 8;
           "it_func", 10; "t_fun", 12];
 ]
 
@@ -196,10 +196,14 @@ let interesting = [| 0; 1; 2; 3; 5; 7; 8; 10; 15; 16; 31; 32; 63; 64; 100; 127; 
                      32768; 65535; 65536; 46340; 46341; 1000000; 16777216; 1073741823; 1073741824;
                      2147483646; 2147483647 |]
 
+(* negative literals are printed as -n (INT_MIN as -2147483647 - 1) *)
+let negatives = [| -1; -1; -2; -3; -7; -128; -32768; -65536; -2147483647; -2147483648; -2147483648 |]
+
 let gen_lit st =
   let big = w st "big_lit" in
   Rng.weighted st.rng [ 100 - big, (fun () -> Rng.int st.rng 11); big / 2 + 1, (fun () -> Rng.int st.rng 1000);
-                        big, (fun () -> Rng.pick_arr st.rng interesting) ] ()
+                        big, (fun () -> Rng.pick_arr st.rng interesting);
+                        big / 4, (fun () -> Rng.pick_arr st.rng negatives) ] ()
 
 let fun_pool = [ TFun ([TInt], TInt); TFun ([], TInt); TFun ([TInt; TInt], TInt); TFun ([TInt], TBool);
                  TFun ([TBool], TInt); TFun ([TInt], TFun ([TInt], TInt)); TFun ([TInt; TInt; TInt], TInt);
@@ -339,9 +343,12 @@ and gen_divisor st env d : expr =
   end else
     Rng.weighted st.rng [
       40, (fun () -> ei (1 + Rng.int st.rng 12));
-      15, (fun () -> ei (max 1 (gen_lit st)));
+      15, (fun () -> ei (let k = gen_lit st in if k = 0 then 1 else k));
       30, (fun () -> EBin (Add, EBin (BAnd, sub (), ei (Rng.pick st.rng [1; 3; 7; 255; 65535])), ei (1 + Rng.int st.rng 3)));
-      15, (fun () -> ENeg (EBin (Add, EBin (BAnd, sub (), ei (Rng.pick st.rng [3; 7; 255])), ei (2 + Rng.int st.rng 3)))) ] ()
+      12, (fun () -> ENeg (EBin (Add, EBin (BAnd, sub (), ei (Rng.pick st.rng [3; 7; 255])), ei (2 + Rng.int st.rng 3))));
+      (* -1 and any odd number: INT_MIN / -1 and INT_MIN % -1 wrap (since 7c75cd1) *)
+      6, (fun () -> ei (-1));
+      8, (fun () -> EBin (BOr, sub (), ei 1)) ] ()
 
 and gen_index st env d : expr =
   let sub () = fst (gen_expr st env TInt (d - 1) ~op:true) in
